@@ -33,6 +33,20 @@ _CB_OLD = ("            after_remove=lambda client: client.close(),\n", "    def
 _CB_NEW = ("            after_remove=self._discard_client,\n", "    def _discard_client(self, client):\n%s\n    def close(self) -> None:\n        self.client_pool.clear()\n")
 
 
+def _readline_loop():
+    """The loop of _readline as it stands in the analysed tree (the accumulate-and-partition variants replace it whole)."""
+    try:
+        from .model import REPO
+        src = open(os.path.join(REPO, B)).read()
+        i = src.index('    chunks: list[bytes] = []\n    last_char = b""\n')
+        return src[i:src.index("def _readvalue(")]
+    except (OSError, ValueError):
+        return "\0 (not found)"
+
+
+_RL = "    while True:\n        line, sep, rest = %s.partition(b\"\\r\\n\")\n        if sep:\n            return %s, line\n\n        chunk = _recv(sock, RECV_SIZE)\n        if not chunk:\n            raise MemcacheUnexpectedCloseError()\n        %s\n\n\n"
+
+
 MUTANTS = [
     # ---------------- C01
     m("C01-store-no-close", "C01", "C01.R1", B, "            return results\n        except BaseException:\n            self.close()\n            raise\n\n    def _misc_cmd", "            return results\n        except BaseException:\n            raise\n\n    def _misc_cmd"),
@@ -81,6 +95,20 @@ MUTANTS = [
     m("C18-writer-kwargs-crossed", "C18", "C18.R1", F, "        self.caches[0].touch(key, expire, noreply)\n", "        primary = self.caches[0]\n        primary.touch(key, expire=noreply, noreply=expire)\n"),
     m("C07-handler-returns-none-via-local", "C07", "C07.R2", H, "            if not self.ignore_exc:\n                raise\n\n            return default_val\n        except Exception:", "            if not self.ignore_exc:\n                raise\n            result = None\n            return result\n        except Exception:"),
     m("C07-silent-handler-local", "C07", "", H, "            if not self.ignore_exc:\n                raise\n\n            return default_val\n        except Exception:", "            if not self.ignore_exc:\n                raise\n            result = default_val\n            return result\n        except Exception:", kind="silent"),
+    # _readline as accumulate-and-partition (what _readsegment does): right, searching the newest piece only, dropping the rest
+    m("C03-silent-readline-partition", "C03", "", B, _readline_loop(), _RL % ("buf", "rest", "buf += chunk"), kind="silent"),
+    m("C01-silent-readline-partition", "C01", "", B, _readline_loop(), _RL % ("buf", "rest", "buf += chunk"), kind="silent"),
+    m("C03-readline-partition-newest-piece", "C03", "C03.R4", B, _readline_loop(), "    chunks = []\n" + _RL % ("buf", "rest", "chunks.append(buf)\n        buf = chunk")),
+    m("C03-readline-partition-drops-rest", "C03", "C03.R1", B, _readline_loop(), _RL % ("buf", "b\"\"", "buf += chunk")),
+    # reply tables built or completed by statements (Module.const interprets the module's top-level statements)
+    m("C05-table-entry-overwritten-by-statement", "C05", "C05.R1", B, "    b\"EXISTS\": False,\n}\n", "    b\"EXISTS\": False,\n}\nSTORE_RESULTS_VALUE[b\"EXISTS\"] = None\n"),
+    m("C05-valid-results-updated-by-statement", "C05", "C05.R1", B, "    b\"cas\": (b\"STORED\", b\"EXISTS\", b\"NOT_FOUND\"),\n}\n", "    b\"cas\": (b\"STORED\", b\"EXISTS\", b\"NOT_FOUND\"),\n}\nVALID_STORE_RESULTS.update({b\"add\": (b\"STORED\",)})\n"),
+    m("C05-silent-tables-built-by-statements", "C05", "", B, ("STORE_RESULTS_VALUE = {\n    b\"STORED\": True,\n    b\"NOT_STORED\": False,\n    b\"NOT_FOUND\": None,\n    b\"EXISTS\": False,\n}\n",), ("STORE_RESULTS_VALUE = dict([(b\"STORED\", True), (b\"NOT_STORED\", False)])\nSTORE_RESULTS_VALUE[b\"NOT_FOUND\"] = None\nSTORE_RESULTS_VALUE.update({b\"EXISTS\": False})\n",), kind="silent"),
+    m("C04-silent-tables-built-by-statements", "C04", "", B, ("STORE_RESULTS_VALUE = {\n    b\"STORED\": True,\n    b\"NOT_STORED\": False,\n    b\"NOT_FOUND\": None,\n    b\"EXISTS\": False,\n}\n",), ("STORE_RESULTS_VALUE = dict([(b\"STORED\", True), (b\"NOT_STORED\", False)])\nSTORE_RESULTS_VALUE[b\"NOT_FOUND\"] = None\nSTORE_RESULTS_VALUE.update({b\"EXISTS\": False})\n",), kind="silent"),
+    # another clock: fine when it is the only one, wrong when its readings are compared with those of time.time()
+    m("C13-silent-monotonic-clock", "C13", "", H, ("time.time()",) * 8, ("time.monotonic()",) * 8, kind="silent"),
+    m("C07-silent-monotonic-clock", "C07", "", H, ("time.time()",) * 8, ("time.monotonic()",) * 8, kind="silent"),
+    m("C13-mixed-clocks", "C13", "C13.R1", H, '"failed_time": time.time(),', '"failed_time": time.monotonic(),'),
     m("C01-misc-handler-oserror-only", "C01", "C01.R1", B, "            return results\n\n        except BaseException:\n            self.close()\n            raise", "            return results\n\n        except OSError:\n            self.close()\n            raise"),
     m("C01-silent-close-alias", "C01", "", B, "        except BaseException:\n            self.close()\n            raise\n\n    def __setitem__", "        except BaseException:\n            self.disconnect_all()\n            raise\n\n    def __setitem__", kind="silent"),
     # ---------------- C02
